@@ -190,12 +190,13 @@ def first_diff(a, b):
     return n if len(a) != len(b) else None
 
 
-def ddmin(lines, test, max_tests=400):
-    """classic ddmin over script lines; test(lines)->True when the failure persists"""
+def ddmin(lines, test, max_tests=400, budget_s=90):
+    """classic ddmin over script lines; test(lines)->True when the failure persists (bounded in tests and in time)"""
     n = 2
     cur = list(lines)
     tests = 0
-    while len(cur) >= 2 and tests < max_tests:
+    t0 = time.time()
+    while len(cur) >= 2 and tests < max_tests and time.time() - t0 < budget_s:
         chunk = max(1, len(cur) // n)
         subsets = [cur[i:i + chunk] for i in range(0, len(cur), chunk)]
         reduced = False
